@@ -342,6 +342,8 @@ func c14GenCase(t *rapid.T) c14Case {
 			"replicas=3", "replicas=99", "replicas=three", "name=alpha", "name=zz", "debug=true", "debug=yes", "cfg.mode=fast", "cfg.extra=x", "cfg.level=10",
 			"mid.replicas=0", "mid.replicas=3", "mid.name=beta", "mid.leaf.replicas=0", "mid.leaf.replicas=3", "mid.leaf.name=zz", "side.replicas=-1", "side.debug=true",
 			"mid.enabled=false", "mid.leaf.enabled=false", "mid.enabled=true", "ports={80,443}", "ports={0}", "mid.cfg.mode=1",
+			// nulls: over a default (deletes it), and where nothing is to delete (stays a null in the final values)
+			"name=null", "replicas=null", "debug=null", "cfg=null", "cfg.mode=null", "extra=null", "mid.name=null", "mid.replicas=null", "mid.leaf.name=null", "side.cfg.level=null",
 		}).Draw(t, "set"))
 	}
 	c.Skip = rapid.IntRange(0, 7).Draw(t, "skipSchema") == 0
@@ -407,8 +409,21 @@ func c14Violators(root *c14Chart, user map[string]interface{}) (names []string, 
 	pruned := prune(root, all)
 	scope := refScope(pruned, deepCopyVal(user).(map[string]interface{}))
 	var walk func(rc *refChart, vals map[string]interface{})
+	// final gives the values a chart is validated against: a null removes the key when the chart's own values.yaml has
+	// a default for it (the documented way to delete a default); any other null stays a null in the final values
+	var final func(rc *refChart, vals map[string]interface{}) map[string]interface{}
+	final = func(rc *refChart, vals map[string]interface{}) map[string]interface{} {
+		c := enabledCharts[rc]
+		out := c14NullRule(deepCopyVal(vals).(map[string]interface{}), c.Defaults)
+		for _, d := range rc.Deps {
+			if sub, ok := vals[d.Name].(map[string]interface{}); ok {
+				out[d.Name] = final(d, sub)
+			}
+		}
+		return out
+	}
 	walk = func(rc *refChart, vals map[string]interface{}) {
-		if c := enabledCharts[rc]; c.Schema != nil && !c14Valid(c.Schema, c14Normalize(vals)) {
+		if c := enabledCharts[rc]; c.Schema != nil && !c14Valid(c.Schema, final(rc, vals)) {
 			names = append(names, c.Name)
 		}
 		for _, d := range rc.Deps {
@@ -422,6 +437,28 @@ func c14Violators(root *c14Chart, user map[string]interface{}) (names []string, 
 	walk(pruned, scope)
 	sort.Strings(names)
 	return names, ok
+}
+
+// c14NullRule applies the null rule level by level against the chart's own defaults.
+func c14NullRule(vals, own map[string]interface{}) map[string]interface{} {
+	out := map[string]interface{}{}
+	for k, v := range vals {
+		switch x := v.(type) {
+		case nil:
+			if _, has := own[k]; !has {
+				out[k] = nil
+			}
+		case map[string]interface{}:
+			o, _ := own[k].(map[string]interface{})
+			if o == nil {
+				o = map[string]interface{}{}
+			}
+			out[k] = c14NullRule(x, o)
+		default:
+			out[k] = v
+		}
+	}
+	return out
 }
 
 // c14Normalize drops nulls (a null removes the key before validation) and converts numbers to float64.
@@ -635,6 +672,10 @@ func c14Lint(c c14Case, user map[string]interface{}, viol []string) string {
 	var msgs []string
 	for _, m := range res.Messages {
 		if m.Severity == support.ErrorSev && m.Err != nil && strings.Contains(m.Err.Error(), "values don't meet the specifications of the schema") {
+			schemaErr = true
+		}
+		// the values rule reports the same failure in the validator's own words ("- at '/cfg': missing property 'mode'")
+		if m.Severity == support.ErrorSev && m.Path == "values.yaml" && m.Err != nil && strings.Contains(m.Err.Error(), "at '/") {
 			schemaErr = true
 		}
 		msgs = append(msgs, fmt.Sprintf("%v", m))
